@@ -63,7 +63,7 @@ def load_findings() -> Dict[str, Any]:
 def finding_matches(f: Dict[str, Any], prop: str, ob) -> bool:
     if prop not in f["property"].split(","):
         return False
-    if f["obligation"] != ob.name:
+    if not re.fullmatch(f["obligation"], ob.name):
         return False
     pat = f.get("path")
     if pat and not re.search(pat, strip_lines(ob.path)):
@@ -72,6 +72,33 @@ def finding_matches(f: Dict[str, Any], prop: str, ob) -> bool:
     if npat and not re.search(npat, ob.note or ""):
         return False
     return True
+
+
+def _run_scenario(item):
+    import subprocess
+
+    fid, spec = item
+    mod, fn = spec.split(":")
+    here = os.path.join(VERIF, "findings", "scenarios")
+    env = dict(os.environ)
+    env["PYTHONPATH"] = os.path.join(os.environ.get("PYVC_REPO", "/repo"), "src") + os.pathsep + here
+    try:
+        out = subprocess.run([sys.executable, os.path.join(here, mod + ".py"), fn], capture_output=True, text=True, timeout=120, env=env, cwd=here)
+        line = [l for l in out.stdout.splitlines() if l.startswith(fn + " ")]
+        if not line:
+            return fid, (False, "scenario crashed: " + (out.stderr or out.stdout)[-300:])
+        rest = line[-1][len(fn) + 1:]
+        return fid, (rest.startswith("(True"), rest)
+    except Exception as e:  # pragma: no cover
+        return fid, (False, f"scenario error {e!r}")
+
+
+def run_scenarios(fs):
+    items = [(f["id"], f["scenario"]) for f in fs if f.get("scenario")]
+    if not items:
+        return {}
+    with cf.ThreadPoolExecutor(max_workers=8) as ex:
+        return dict(ex.map(_run_scenario, items))
 
 
 def main(argv=None) -> int:
@@ -211,9 +238,12 @@ def main(argv=None) -> int:
         path, reproduced = write_replay(prop, unit, ob, VERIF)
         suffix = "" if reproduced else " no-failing-input-found"
         viol_lines.append(f"VIOLATION property={prop} replay={path}{suffix}")
+    scen = run_scenarios([x for x in findings["findings"] if x["id"] in known_hits])
     for fid, obs in known_hits.items():
         f = [x for x in findings["findings"] if x["id"] == fid][0]
-        print(f"KNOWN-FINDING: property={prop} {fid}: {f['what']}")
+        rep = scen.get(fid)
+        tag = "" if rep is None else (" [native scenario reproduces]" if rep[0] else " [native scenario did NOT reproduce: " + rep[1][:120] + "]")
+        print(f"KNOWN-FINDING: property={prop} {fid}: {f['what']}{tag}")
     if errors:
         rc = 3
     elif viol_lines:
@@ -258,7 +288,7 @@ def main(argv=None) -> int:
             "samples": samples,
             "all_obligations": {k: v["status"] for k, v in named.items()},
             "excluded_by_known_findings": sorted(k for k, v in named.items() if v["status"] == "known-finding"),
-            "known_findings": sorted(known_hits),
+            "known_findings": [{"id": k, "scenario_reproduces": (scen.get(k) or [None])[0], "scenario_detail": (scen.get(k) or [None, ""])[1]} for k in sorted(known_hits)],
             "bounded_standins": standins,
             "assumed_contracts": sorted(q for q, f in REG.fns.items() if f.assume_only and any(q.startswith(u.rsplit('.', 1)[0]) for u in units)),
             "dropped_by_extraction": "type annotations (used only to pick sorts), comments/docstrings, f-string/% formatting results (opaque), time() (fresh real), log calls (effect-free)",
